@@ -289,7 +289,11 @@ def text_writer(F):
                     writes.append((at, add(at, C(1)), "byte", src_field(nv, hf), None))
             elif find_all(pe, lambda x: x == P(2)):
                 unknown.append("store " + sym.fmt(pe))
-        out["modes"][mode] = {"gate": gate, "ret": ret, "writes": writes, "unknown": unknown, "path": p}
+        rec_ = {"gate": gate, "ret": ret, "writes": writes, "unknown": unknown, "path": p, "alts": []}
+        if mode in out["modes"]:
+            out["modes"][mode]["alts"].append(rec_)  # several Ok paths for one prefix mode: each is checked
+        else:
+            out["modes"][mode] = rec_
     # an error return taken before the prefix is examined applies to every prefix mode
     if None in out["errs"] and out["modes"] and None not in out["modes"]:
         shared = out["errs"].pop(None)
@@ -354,11 +358,12 @@ def binary_writer(F):
                 writes.append((at, add(at, C(1)), "byte", src_field(n(v), hf), None))
             elif find_all(pe, lambda x: x == P(2)):
                 unknown.append("store " + sym.fmt(pe))
-        rec = {"gate": gate, "ret": ret, "writes": writes, "unknown": unknown, "path": p}
-        if ret[0] == "agg" and ret[1].endswith("Result::Err"):
-            out["err"] = rec
+        rec = {"gate": gate, "ret": ret, "writes": writes, "unknown": unknown, "path": p, "alts": []}
+        kind_ = "err" if ret[0] == "agg" and ret[1].endswith("Result::Err") else "ok"
+        if out.get(kind_) is not None:
+            out[kind_]["alts"].append(rec)  # several paths of one kind: each is checked
         else:
-            out["ok"] = rec
+            out[kind_] = rec
     return out, None
 
 
